@@ -35,10 +35,10 @@ def run(tier, seed):
             raise MachineryError("behaviour generation (B) failed: %s" % B["errors"][:3])
         wall += B["wall_s"]
         hs = B["tr"]
-        if quick and len(hs) > 6000:
+        if quick and len(hs) > 3000:
             import random
             rng = random.Random(seed)
-            hs = rng.sample(hs, 6000)
+            hs = rng.sample(hs, 3000)
         behaviours += [(h, len(h)) for h in hs]
     R = pipeline.replay_and_validate("C13/C", "empty", behaviours, seed=seed)
     for c in CLAUSES:
